@@ -62,6 +62,30 @@ def s_cse_variants(rng, nval):
     return _mk(prog, "cse_key_variants", rng, nval, edges={"a": list(range(-2, 12))})
 
 
+def s_bundle_cse_variants(rng, nval):
+    """Bundle filters / member-wise operations that differ in exactly one field (output mode, constant, operator)."""
+    b = C02.B(rng)
+    b.literal("r")
+    op = rng.choice(CMP_OPS)
+    k = rng.choice([0, 1, 2, 5, -1])
+    aop = rng.choice(["+", "-", "*"])
+    items = [
+        ["bf", op, ["v", "r"], ["n", k], "copy"],
+        ["bf", op, ["v", "r"], ["n", k], "copy"],
+        ["bf", op, ["v", "r"], ["n", k], ["n", 1]],
+        ["bf", op, ["v", "r"], ["n", k], ["n", rng.choice([2, 7, -1])]],
+        ["bf", op, ["v", "r"], ["n", k + 1], "copy"],
+        ["bf", rng.choice([o for o in CMP_OPS if o != op]), ["v", "r"], ["n", k], "copy"],
+        ["bb", aop, ["v", "r"], ["n", 2]],
+        ["bb", aop, ["v", "r"], ["n", 2]],
+        ["bb", aop, ["v", "r"], ["n", 3]],
+    ]
+    rng.shuffle(items)
+    for i, e in enumerate(items[: rng.randint(3, 7)]):
+        b.prog.append(["bun", "x%d" % i, e])
+    return _mk(b.prog, "bundle_cse_key_variants", rng, nval, small=True)
+
+
 def s_folded_consumers(rng, nval):
     """Anonymous constant expressions (folded at IR level) consumed by each consumer kind."""
     types = gen.Types(rng)
@@ -139,7 +163,7 @@ def s_c05(rng, nval):
     return _mk(prog, "C05:%s_%s" % (kind, order), rng, nval, edges=edges, history=True, nsteps=rng.randint(10, 24))
 
 
-STRATA = [(s_cse_variants, 5), (s_folded_consumers, 5), (s_fanout, 2),
+STRATA = [(s_cse_variants, 5), (s_bundle_cse_variants, 3), (s_folded_consumers, 5), (s_fanout, 2),
           (from_other(C01.s_dag_distinct, "C01"), 4), (from_other(C01.s_dag_same, "C01"), 1),
           (from_other(C01.s_logic_chain, "C01"), 2), (from_other(C01.s_sel, "C01"), 2),
           (from_other(C01.s_wire_merge, "C01"), 1), (from_other(C01.s_const_heavy, "C01"), 2),
@@ -190,7 +214,7 @@ def run_history_twin(case):
                 return dict(base, verdict="inconclusive", why="declared input not found by label", evaluations=total)
             oa = {"settled": ra["settle"] if ra["stable"] else None, "out": ra["obs"], "const": {}}
             ob = {"settled": rb["settle"] if rb["stable"] else None, "out": rb["obs"], "const": {}}
-            d = sem.diff_observations(oa, ob)
+            d = sem.diff_observations(oa, ob, strict=True)
             if any(v.get("signals") for v in ra["obs"].values()):
                 nontrivial = True
             if d:
@@ -232,6 +256,6 @@ def run_case(case):
                               edges=case.get("edges"))
         chests = C06.chests_fn(case, vals, rng)
         return sem.run_twin_case(case, case["prog"], {"optimize": True}, case["prog"], {"optimize": False},
-                                 vals=vals, chests=chests, label_a="optimize", label_b="no-optimize")
+                                 vals=vals, chests=chests, label_a="optimize", label_b="no-optimize", strict_names=True)
     return sem.run_twin_case(case, case["prog"], {"optimize": True}, case["prog"], {"optimize": False},
-                             label_a="optimize", label_b="no-optimize")
+                             label_a="optimize", label_b="no-optimize", strict_names=True)
